@@ -175,7 +175,10 @@ def mon_c12(cfg, s, rec, out, cnt):
         if any(h is None or h.ret < 0 for h in hs):
             continue
         # R1
-        if pure and at >= 0 and b'"' not in L and b"\\" not in L and not cfg.opts & {"RFC6531_FOLLOW_RFC20"}:
+        # (a build with RFC6531_FOLLOW_RFC20 legitimately differs in mode 6531 on the seven RFC 20 characters: those local parts
+        #  are then left to C17)
+        if pure and at >= 0 and b'"' not in L and b"\\" not in L and not (
+                "RFC6531_FOLLOW_RFC20" in cfg.opts and any(c in OL.RFC20 for c in L)):
             cnt["R1.checked"] += 1
             base = (hs[0].ret, hs[0].err)
             for m in (1, 2):
